@@ -357,6 +357,10 @@ fn run_stream(prop: &Property, sub: &Sub, tier: Tier, seed: u64, w: usize, slot:
         }
         let mut obs = Obs::default();
         let after_fail = failed.get();
+        if after_fail && sub.shrink_iters > 0 && res_cell.borrow().shrink_evals >= sub.shrink_iters as u64 {
+            // shrink budget used up: let every further candidate "pass" so that proptest ends quickly
+            return Ok(());
+        }
         {
             let r = res_cell.borrow();
             obs.want_desc = !after_fail && r.samples.len() < want_samples;
@@ -416,7 +420,7 @@ fn run_stream(prop: &Property, sub: &Sub, tier: Tier, seed: u64, w: usize, slot:
     let mut cfg = Config::default();
     cfg.cases = per as u32;
     cfg.failure_persistence = None;
-    cfg.max_shrink_iters = sub.shrink_iters;
+    cfg.max_shrink_iters = u32::MAX;
     cfg.max_shrink_time = 0;
     cfg.verbose = 0;
     cfg.source_file = None;
@@ -700,6 +704,7 @@ pub fn run_property(prop: &Property, tier: Tier, seed: u64) -> RunOutcome {
         let mut lost: HashSet<usize> = HashSet::new();
         let mut parked_seen = alloc::PARKED.load(Ordering::SeqCst);
         let mut hang_abort = false;
+        let mut park_abort = false;
         let limit = match (std::env::var("VERIF_HANG_SECS").ok().and_then(|v| v.parse::<u64>().ok()), sub.hang_secs) {
             (Some(v), _) => Duration::from_secs(v),
             (None, Some(v)) => Duration::from_secs(v),
@@ -723,7 +728,8 @@ pub fn run_property(prop: &Property, tier: Tier, seed: u64) -> RunOutcome {
                     };
                     if stream < STREAMS && lost.insert(stream) {
                         let size = alloc::PARKED_SIZE.load(Ordering::SeqCst);
-                        let small = reduce_stuck(sub.oracle, &case, Duration::from_secs(5), 24);
+                        stop.store(true, Ordering::SeqCst);
+                        let small = reduce_stuck(sub.oracle, &case, Duration::from_secs(3), 10);
                         let mut r = StreamResult { stream, ..Default::default() };
                         r.evals = 1;
                         r.failure = Some((small, format!("a single allocation of {} bytes was requested (above the hard cap of {} bytes); the requesting thread was parked", size, alloc::HARD_CAP)));
@@ -736,12 +742,12 @@ pub fn run_property(prop: &Property, tier: Tier, seed: u64) -> RunOutcome {
                             s.started = None;
                             s.stream = usize::MAX;
                         }
-                        let i = next_slot.fetch_add(1, Ordering::SeqCst);
-                        if i < slots.len() {
-                            spawn_worker(i);
-                        }
+                        park_abort = true;
                     }
                 }
+            }
+            if park_abort {
+                break;
             }
             // hung worker?
             for si in 0..slots.len() {
